@@ -170,7 +170,7 @@ def c02(cases, res):
             if not is_key(s):
                 api_since_commit = True
                 # commit_preedit_buf path
-                if s.op[0] == "commit" and s.res == "1":
+                if s.op[0] == "commit" and s.res == "1" and prev.obs is not None:      # (sparsely observed cases: no display to compare)
                     commits += 1
                     if s.snap.get("commit", "") != (prev.obs or {}).get("display", ""):
                         out.append(fail("api-commit-differs-from-display", case, i,
@@ -181,7 +181,7 @@ def c02(cases, res):
             syms = lst(s.snap.get("syms", ""))
             commit = s.snap.get("commit", "")
             # whole-buffer commit by Enter
-            if state_of(prev) == "Entering" and psyms and code == KC["Enter"]:
+            if state_of(prev) == "Entering" and psyms and code == KC["Enter"] and prev.obs is not None:
                 commits += 1
                 if s.res != "Commit" or commit != (prev.obs or {}).get("display", "") or syms:
                     out.append(fail("enter-commit-differs-from-display", case, i,
@@ -293,9 +293,36 @@ def parse_sels(s):
     return out
 
 
+def is_spelling(text):
+    """a Bopomofo spelling (letters U+3105..U+3129 and tone marks): what the engines show for a syllable
+    that has no word at all (SimpleEngine always did; ChewingEngine since fix e6644f0)"""
+    return bool(text) and all(0x3105 <= x <= 0x3129 or x in (0x2D9, 0x2CA, 0x2C7, 0x2CB, 0x2C9) for x in text)
+
+
+def tiles_apart_from_fallback(ivs, syms):
+    """the tiling contract with the one exemption C03's quantifier makes (dictionaries with a word for
+    every syllable): a single syllable shown by its spelling"""
+    pos = 0
+    spelled = 0
+    for b, e, kind, text in ivs:
+        if b != pos or e <= b:
+            return False, spelled
+        if len(text) != e - b:
+            # one spelled syllable, possibly glued (Tab) to its neighbours: the characters that are not
+            # Bopomofo letters / tone marks account for the other symbols of the interval
+            plain = [x for x in text if not is_spelling([x])]
+            if all(x.startswith("S") for x in syms[b:e]) and len(plain) < e - b and len(plain) < len(text):
+                spelled += (e - b) - len(plain)
+            else:
+                return False, spelled
+        pos = e
+    return pos == len(syms), spelled
+
+
 def c03(cases, res):
     out = []
     checked = 0
+    spelled_total = 0
     for case in cases:
         for i, prev, s in steps_with_prev(case):
             if not s.obs or s.obs.get("display") is None:
@@ -304,7 +331,10 @@ def c03(cases, res):
             syms = lst(s.snap.get("syms", ""))
             disp = [int(x) for x in s.obs.get("display", "").split(".") if x]
             if s.obs.get("tiling") != "1":
-                out.append(fail("conversion-not-a-tiling", case, i, "%s / %s" % (s.raw_s[:300], (s.dconv or {}).get("ivs"))))
+                ok, spelled = tiles_apart_from_fallback((s.dconv or {}).get("ivs") or [], syms) if s.dconv else (False, 0)
+                spelled_total += spelled
+                if not (ok and spelled):
+                    out.append(fail("conversion-not-a-tiling", case, i, "%s / %s" % (s.raw_s[:300], (s.dconv or {}).get("ivs"))))
                 continue
             if len(disp) != len(syms):
                 out.append(fail("display-length", case, i, "%d symbols, %d characters" % (len(syms), len(disp))))
@@ -318,6 +348,7 @@ def c03(cases, res):
                 if joined != disp:
                     out.append(fail("display-not-concatenation", case, i, "%s vs %s" % (joined, disp)))
     res.notes["oracle_conversions_checked"] = checked
+    res.notes["oracle_spelled_syllables_without_word"] = spelled_total
     return out
 
 
@@ -490,4 +521,35 @@ def c07(cases, res):
     res.notes["oracle_lists"] = lists
     res.notes["oracle_choices"] = chooses
     res.notes["oracle_rejected_choices"] = rejected
+    return out
+
+
+def c17(cases, res):
+    """queries pure (impl side): a `get` op leaves the hook snapshot untouched, repeated query
+    calls return equal values; reset: the reset context and a fresh twin with the same
+    configuration and user dictionary agree after the reset and after every later op"""
+    out = []
+    gets = repeated = twins = sparse_cases = 0
+    for case in cases:
+        if any(l.startswith("MODE sparse") for l in case["setup"]):
+            sparse_cases += 1
+        for i, prev, s in steps_with_prev(case):
+            if s.op[0] == "get":
+                gets += 1
+                if prev is not None and prev.raw_s and s.raw_s and prev.raw_s != s.raw_s:
+                    out.append(fail("query-changed-state", case, i, "before: %s after: %s" % (prev.raw_s[:300], s.raw_s[:300])))
+                if len(s.gets) >= 2:
+                    repeated += 1
+                    if any(g != s.gets[0] for g in s.gets[1:]):
+                        out.append(fail("repeated-query-differs", case, i, " | ".join(x[:200] for x in s.gets)))
+                if len(s.all_o) >= 2 and any(o != s.all_o[0] for o in s.all_o[1:]):
+                    out.append(fail("repeated-query-differs", case, i, " | ".join(x[:200] for x in s.all_o)))
+            if s.twin is not None:
+                twins += 1
+                if not s.twin.startswith("ok"):
+                    out.append(fail("reset-differs-from-fresh", case, i, s.twin[:1500]))
+    res.notes["oracle_get_ops"] = gets
+    res.notes["oracle_repeated_queries"] = repeated
+    res.notes["oracle_twin_comparisons"] = twins
+    res.notes["oracle_sparse_cases"] = sparse_cases
     return out
